@@ -129,8 +129,10 @@ def _goal(draw, n, allow_none=False):
 
 @st.composite
 def weighted_cases(draw, tier="quick"):
-    fam = draw(st.sampled_from(["backbone", "detour", "dense", "parallel", "uniform", "backbone"]))
+    fam = draw(st.sampled_from(["backbone", "greedy-trap", "detour", "dense", "parallel", "uniform", "greedy-trap", "backbone"]))
     n = draw(st.sampled_from(_sizes(tier)))
+    if fam == "greedy-trap" and n < 5:
+        fam = "detour"
     s = draw(st.integers(0, n - 1))
     goal = _goal(draw, n)
     if fam == "dense":
@@ -156,6 +158,24 @@ def weighted_cases(draw, tier="quick"):
         for a, b in zip(chain, chain[1:]):
             edges.append([a, b, draw(cheap)])
         edges.append([s, t, draw(st.sampled_from([2, 2.5, 3, 5]))])
+        if goal["ts"] and goal["ts"][0] < n:
+            goal = {"as": goal["as"], "ts": sorted(set([t] + goal["ts"][1:]))}
+    if fam == "greedy-trap":
+        # Route A starts with a heavy edge and is cheap afterwards; route B consists of light edges only
+        # but is longer in total.  A search that orders its frontier by anything but the path cost
+        # (last edge, hop count, f of the wrong node) walks down B and settles the target too early.
+        order = list(draw(st.permutations(range(n))))
+        s, t, rest = order[0], order[1], order[2:]
+        na = draw(st.integers(1, min(2, len(rest) - 2)))
+        nb_ = draw(st.integers(2, len(rest) - na))
+        ra = [s] + rest[:na] + [t]
+        rb = [s] + rest[na : na + nb_] + [t]
+        edges = edges[: draw(st.integers(0, min(len(edges), n)))] if draw(st.booleans()) else []
+        edges.append([ra[0], ra[1], draw(st.sampled_from([2, 2.5, 3, 5]))])
+        for a, b in zip(ra[1:], ra[2:]):
+            edges.append([a, b, draw(st.sampled_from([0, 0.5, 0]))])
+        for a, b in zip(rb, rb[1:]):
+            edges.append([a, b, draw(st.sampled_from([1, 0.5, 2, 1]))])
         if goal["ts"] and goal["ts"][0] < n:
             goal = {"as": goal["as"], "ts": sorted(set([t] + goal["ts"][1:]))}
     if len(edges) > 1:
@@ -307,32 +327,99 @@ PALETTES = [[0, 0, 1], [0, 0, 0, 1, 2, 3], [0, 0, 0, 0, 1], [0, 1], [0, 2, 3, 1]
 @st.composite
 def grid_cases(draw, tier="quick"):
     dims = [5, 6, 4, 3, 7, 8, 2, 1] if tier == "thorough" else [5, 6, 4, 3, 2, 1]
+    fam = draw(st.sampled_from(["random", "wall", "band", "random"]))
     rows = draw(st.sampled_from(dims))
     cols = draw(st.sampled_from(dims))
-    palette = draw(st.sampled_from(PALETTES))
+    if cols < 3 or rows < 2:
+        fam = "random"
+    palette = draw(st.sampled_from(PALETTES if fam == "random" else [[0, 0, 0, 0, 0, 1], [0], [0, 0, 0, 2, 3], [0, 0, 1]]))
     cells = draw(st.lists(st.sampled_from(palette), min_size=rows * cols, max_size=rows * cols))
     grid = [cells[r * cols : (r + 1) * cols] for r in range(rows)]
-    start = (draw(st.integers(0, rows - 1)), draw(st.integers(0, cols - 1)))
-    if draw(st.integers(0, 11)) == 11:
-        goal = start
-    else:  # offsets listed so that the "simplest" goal is the cell farthest around the torus
-        goal = ((start[0] + 1 + draw(st.integers(0, rows - 1))) % rows, (start[1] + 1 + draw(st.integers(0, cols - 1))) % cols)
+    blocked = draw(st.sampled_from(BLOCKED))
+    costs = draw(st.sampled_from(COSTS))
+    if fam == "random":
+        start = (draw(st.integers(0, rows - 1)), draw(st.integers(0, cols - 1)))
+        if draw(st.integers(0, 11)) == 11:
+            goal = start
+        else:  # offsets listed so that the "simplest" goal is the cell farthest around the torus
+            goal = ((start[0] + 1 + draw(st.integers(0, rows - 1))) % rows, (start[1] + 1 + draw(st.integers(0, cols - 1))) % cols)
+    else:
+        # a barrier column between start and goal with one or two gaps: blocked cells ("wall") or
+        # expensive terrain ("band"); a search misled by its heuristic takes the wrong gap / ploughs through
+        wc = draw(st.integers(1, cols - 2))
+        gaps = draw(st.lists(st.integers(0, rows - 1), min_size=1, max_size=2, unique=True))
+        for r in range(rows):
+            grid[r][wc] = 0 if r in gaps else (1 if fam == "wall" else 2)
+        if fam == "wall":
+            blocked = draw(st.sampled_from([1, [1], [1, 3]]))
+        else:
+            costs = draw(st.sampled_from([[[2, 2.5]], [[2, 3]], [[2, 5], [3, 1.5]], [[2, 2], [0, 1]]]))
+            blocked = draw(st.sampled_from([1, [1], 7]))
+        start = (draw(st.integers(0, rows - 1)), draw(st.integers(0, wc - 1)))
+        goal = (draw(st.integers(0, rows - 1)), draw(st.integers(wc + 1, cols - 1)))
+        if draw(st.booleans()):
+            start, goal = goal, start
     if draw(st.integers(0, 3)) > 0:
         # usually open up start and goal (blocked start/goal stay in as a class of their own)
         for r, c in (start, goal):
             grid[r][c] = 0
+    if fam != "random" and draw(st.booleans()):  # horizontal barrier: transpose everything
+        grid = [[grid[r][c] for r in range(rows)] for c in range(cols)]
+        start, goal = (start[1], start[0]), (goal[1], goal[0])
+        rows, cols = cols, rows
     return {
+        "family": fam,
         "grid": grid,
         "start": list(start),
         "goal": list(goal),
         "directions": draw(st.sampled_from([8, 4])),
         "heuristic": draw(st.sampled_from(HEURISTICS)),
-        "blocked": draw(st.sampled_from(BLOCKED)),
-        "costs": draw(st.sampled_from(COSTS)),
-        "weight": draw(st.sampled_from([None, 1.0, None, 1, 1.5, 2.0, 0.5])),
+        "blocked": blocked,
+        "costs": costs,
+        "weight": draw(st.sampled_from([None, 1.0, None, 1, None, 1.5, 2.0, 0.5])),
         "max_iter": draw(st.one_of(st.none(), st.none(), st.none(), st.none(), st.integers(0, rows * cols + 1))),
         "rows_as": draw(st.sampled_from(["list", "tuple"])),
     }
+
+
+# ----------------------------------------------------------------------------- calling solvOR
+# Deterministic work limit (DESIGN §2.4).  C11 does not claim termination, so a case that exceeds it
+# is *inconclusive* ("step-budget"), never an alarm; the limit only keeps a looping solver (e.g. a
+# parent-pointer cycle in path reconstruction) from eating the wall budget.  Largest count observed
+# on the unchanged tree: ~6 200 events (floyd_warshall, n = 10, thorough tier) -> limit = 160x that.
+STEP_LIMIT = 1_000_000
+_instrumented = False
+
+
+def _instrument():
+    global _instrumented
+    if _instrumented:
+        return
+    import importlib
+    import types
+
+    from .. import budget
+
+    for name in ("solvor.dijkstra", "solvor.a_star", "solvor.bfs", "solvor.bellman_ford", "solvor.floyd_warshall", "solvor.utils.helpers"):
+        m = importlib.import_module(name)
+        # the @with_rust_backend wrapper hides the Python body: expose __wrapped__ through a shim module
+        shim = types.ModuleType(m.__name__)
+        for k, v in vars(m).items():
+            v = getattr(v, "__wrapped__", v)
+            if isinstance(v, types.FunctionType) and v.__module__ == m.__name__:
+                setattr(shim, k, v)
+        budget.instrument(shim)
+    _instrumented = True
+
+
+def _call(ctx, fn, *a, **kw):
+    from .. import budget
+
+    _instrument()
+    with budget.steps(STEP_LIMIT) as s:
+        res = ctx.call(fn, *a, **kw)
+    ctx.size("steps", s.count)
+    return res
 
 
 # ----------------------------------------------------------------------------- shared judging
@@ -343,6 +430,7 @@ class Env:
         self.n = n
         self.edges = [(u, v, w) for u, v, w in edges]
         self.s = s
+        self.scheme = scheme
         self.L = [lab(scheme, i) for i in range(n + extra_labels)]
         self.idx = {self.L[i]: i for i in range(n)}
         self.cheap = G.cheapest(self.edges)
@@ -424,9 +512,10 @@ def _goal_arg(env, goal):
     inside = {t for t in ts if t < env.n}
     if goal["as"] == "none":
         return None, inside
+    # labels are built afresh: equal to, but not the same objects as, the ones the neighbour function yields
     if goal["as"] == "value":
-        return env.L[ts[0]], inside
-    labels = [env.L[t] for t in ts]
+        return lab(env.scheme, ts[0]), inside
+    labels = [lab(env.scheme, t) for t in ts]
     return (lambda x: x in labels), inside
 
 
@@ -496,7 +585,7 @@ def run_weighted(desc, ctx):
     ctx.size("edges", len(env.edges))
 
     escapes = []
-    res = ctx.call(dijkstra, L[s], goal_arg, nb, **kw)
+    res = _call(ctx, dijkstra, lab(desc["scheme"], s), goal_arg, nb, **kw)
     escapes.append(judge_path("dijkstra", res, env, goals, want, max_cost=mc, max_iter=mi, reach_n=reach_n))
 
     # astar: h = lambda * exact distance to the nearest goal; inf where the goal set cannot be
@@ -512,7 +601,7 @@ def run_weighted(desc, ctx):
         else:
             hval[L[i]] = float(lam * togo[i])  # denominators <= 8: exact
     ctx.label(f"lambda-{lam}")
-    res = ctx.call(astar, L[s], goal_arg, nb, lambda x: hval[x], **kw)
+    res = _call(ctx, astar, lab(desc["scheme"], s), goal_arg, nb, lambda x: hval[x], **kw)
     escapes.append(judge_path("astar", res, env, goals, want, max_cost=mc, max_iter=mi, reach_n=reach_n))
 
     if desc["edges_api"] and mc is None and mi is None:
@@ -520,12 +609,12 @@ def run_weighted(desc, ctx):
         ts = desc["goal"]["ts"]
         if desc["goal"]["as"] == "value" and ts[0] < n:
             ctx.label("dijkstra_edges-target")
-            res = ctx.call(dijkstra_edges, n, elist, s, target=ts[0], backend="python")
+            res = _call(ctx, dijkstra_edges, n, elist, s, target=ts[0], backend="python")
             ienv = Env(n, 0, desc["edges"], s)
             judge_path("dijkstra_edges", res, ienv, {ts[0]}, dist[ts[0]])
         else:
             ctx.label("dijkstra_edges-all")
-            res = ctx.call(dijkstra_edges, n, elist, s, backend="python")
+            res = _call(ctx, dijkstra_edges, n, elist, s, backend="python")
             sol = res.solution
             if not isinstance(sol, dict):
                 raise Violation("dijkstra_edges:all-distances-not-a-dict", repr(sol)[:200])
@@ -584,7 +673,7 @@ def run_unweighted(desc, ctx):
     escapes = []
     if desc["goal"]["as"] == "none":
         for name, fn in (("bfs", bfs), ("dfs", dfs)):
-            res = ctx.call(fn, L[s], None, nb)
+            res = _call(ctx, fn, L[s], None, nb)
             try:
                 got = set(res.solution)
             except TypeError:
@@ -592,9 +681,9 @@ def run_unweighted(desc, ctx):
             if got != {L[v] for v in R}:
                 raise Violation(f"{name}:explore-all-reachable-set", {"got": repr(sorted(got, key=repr))[:300], "want": sorted(R)})
     else:
-        res = ctx.call(bfs, L[s], goal_arg, nb, **kw)
+        res = _call(ctx, bfs, L[s], goal_arg, nb, **kw)
         escapes.append(judge_path("bfs", res, env, goals, wantf, max_iter=mi, reach_n=len(R)))
-        res = ctx.call(dfs, L[s], goal_arg, nb, **kw)
+        res = _call(ctx, dfs, L[s], goal_arg, nb, **kw)
         escapes.append(judge_path("dfs", res, env, goals, wantf, optimal_status="FEASIBLE", any_path=True, max_iter=mi, reach_n=len(R)))
         if want is not None and res.status.name == "FEASIBLE":
             ctx.label(_exact(res.objective) > wantf and "dfs-path-longer-than-shortest")
@@ -607,14 +696,14 @@ def run_unweighted(desc, ctx):
             ctx.label("edges-api-target")
             t = ts[0]
             ht = None if hops[t] is None else Fraction(hops[t])
-            res = ctx.call(bfs_edges, n, plist, s, target=t, backend="python")
+            res = _call(ctx, bfs_edges, n, plist, s, target=t, backend="python")
             judge_path("bfs_edges", res, ienv, {t}, ht)
-            res = ctx.call(dfs_edges, n, plist, s, target=t, backend="python")
+            res = _call(ctx, dfs_edges, n, plist, s, target=t, backend="python")
             judge_path("dfs_edges", res, ienv, {t}, ht, optimal_status="FEASIBLE", any_path=True)
         else:
             ctx.label("edges-api-all")
             for name, fn in (("bfs_edges", bfs_edges), ("dfs_edges", dfs_edges)):
-                res = ctx.call(fn, n, plist, s, backend="python")
+                res = _call(ctx, fn, n, plist, s, backend="python")
                 try:
                     got = sorted(res.solution)
                 except TypeError:
@@ -681,7 +770,7 @@ def run_bf(desc, ctx):
     ctx.size("edges", len(edges))
 
     kw = {} if target is None else {"target": target}
-    res = ctx.call(bellman_ford, s, arg, n, backend="python", **kw)
+    res = _call(ctx, bellman_ford, s, arg, n, backend="python", **kw)
     stn = res.status.name
     if neg:
         if stn != "UNBOUNDED":
@@ -764,7 +853,7 @@ def run_fw(desc, ctx):
     ctx.size("edges", len(edges))
 
     kw = {} if directed and desc["tuples"] else {"directed": directed}
-    res = ctx.call(floyd_warshall, n, arg, backend="python", **kw)
+    res = _call(ctx, floyd_warshall, n, arg, backend="python", **kw)
     stn = res.status.name
     if neg:
         if stn != "UNBOUNDED":
@@ -829,7 +918,7 @@ def run_grid(desc, ctx):
     want = dist.get(goal)
     reach_n = len(dist)
 
-    ctx.label(f"dirs-{directions}", f"h-{h_name}", admissible and "admissible", not admissible and "inadmissible-validity-only",
+    ctx.label(desc["family"], f"dirs-{directions}", f"h-{h_name}", admissible and "admissible", not admissible and "inadmissible-validity-only",
               not w1 and "weight-not-1", start_blocked and "start-blocked", goal_blocked and "goal-blocked", start == goal and "start-is-goal",
               want is None and "unreachable", costs and "costs-map", cheap_cell and "cost-below-1", mi is not None and "max_iter",
               mi is not None and mi <= reach_n and "max_iter-small", isinstance(b, int) and "blocked-int", not isinstance(b, int) and "blocked-set")
@@ -853,7 +942,7 @@ def run_grid(desc, ctx):
         kw["weight"] = weight
     if mi is not None:
         kw["max_iter"] = mi
-    res = ctx.call(astar_grid, garg, start, goal, **kw)
+    res = _call(ctx, astar_grid, garg, start, goal, **kw)
     stn = res.status.name
 
     if stn == "MAX_ITER":
@@ -913,9 +1002,9 @@ def run_grid(desc, ctx):
 
 
 SUBS = [
-    Sub("dijkstra_astar", run_weighted, strategy=lambda tier: weighted_cases(tier), quick=500, thorough=5000, workers_quick=3),
-    Sub("bfs_dfs", run_unweighted, strategy=lambda tier: unweighted_cases(tier), quick=350, thorough=3500, workers_quick=3),
-    Sub("bellman_ford", run_bf, strategy=lambda tier: bf_cases(tier), quick=450, thorough=4500, workers_quick=3),
-    Sub("floyd_warshall", run_fw, strategy=lambda tier: fw_cases(tier), quick=350, thorough=3500, workers_quick=3),
-    Sub("astar_grid", run_grid, strategy=lambda tier: grid_cases(tier), quick=400, thorough=4000, workers_quick=4),
+    Sub("dijkstra_astar", run_weighted, strategy=lambda tier: weighted_cases(tier), quick=800, thorough=6000, workers_quick=3, case_timeout=20.0),
+    Sub("bfs_dfs", run_unweighted, strategy=lambda tier: unweighted_cases(tier), quick=500, thorough=4000, workers_quick=3, case_timeout=20.0),
+    Sub("bellman_ford", run_bf, strategy=lambda tier: bf_cases(tier), quick=600, thorough=5000, workers_quick=3, case_timeout=20.0),
+    Sub("floyd_warshall", run_fw, strategy=lambda tier: fw_cases(tier), quick=450, thorough=4000, workers_quick=3, case_timeout=20.0),
+    Sub("astar_grid", run_grid, strategy=lambda tier: grid_cases(tier), quick=600, thorough=5000, workers_quick=4, case_timeout=20.0),
 ]
